@@ -568,7 +568,8 @@ def make_agent_class():
             t = a.get("trade")
             if t is not None and t < 0:
                 t = len(trades) + t
-            if t is not None and 0 <= t < len(trades) and trades[t].status.name == "LIVE":
+            reuse_done = bool(a.get("reuse_done")) and t is not None and 0 <= t < len(trades) and trades[t].status.name == "COMPLETE"
+            if t is not None and 0 <= t < len(trades) and (trades[t].status.name == "LIVE" or reuse_done):
                 sel = trades[t].selection_id  # an order always lives on its trade's selection
                 hc = trades[t].handicap
             if self.spec.get("discipline"):
@@ -576,8 +577,10 @@ def make_agent_class():
                     if o.status in BUSY:
                         run.res.probes["agent.place.deferred"] += 1
                         return
-            if t is not None and 0 <= t < len(trades) and trades[t].status.name == "LIVE" and trades[t].selection_id == sel:
+            if t is not None and 0 <= t < len(trades) and (trades[t].status.name == "LIVE" or reuse_done) and trades[t].selection_id == sel:
                 trade = trades[t]
+                if reuse_done:
+                    run.res.probes["agent.place.on_completed_trade"] += 1
             else:
                 trade = F["Trade"](
                     market.market_id,
